@@ -72,8 +72,10 @@ pub fn run(rec: &mut Recorder, w: &mut World, tier: &str, seed: u64) {
             hists.push((0..len).map(|_| {
                 let (def, ns) = if rng.chance(1, 2) { ("g", &n1) } else { ("g2", &n2) };
                 let mut r = sv(&[*rng.pick(ns), *rng.pick(ns)]); if dom { r.push(rng.pick(&doms).to_string()); }
-                match rng.below(8) { 0..=4 => MOp::Add("g".into(), def.into(), r), 5 | 6 => MOp::Rm("g".into(), def.into(), r),
-                    _ => MOp::RmF("g".into(), def.into(), rng.below(2), vec![r[0].clone()]) }
+                match rng.below(10) { 0..=4 => MOp::Add("g".into(), def.into(), r), 5 | 6 => MOp::Rm("g".into(), def.into(), r),
+                    7 => MOp::RmF("g".into(), def.into(), rng.below(2), vec![r[0].clone()]),
+                    // the RBAC helpers speak about the first definition only: a user or a role deleted under g
+                    8 => MOp::DelUser(r[0].clone()), _ => MOp::DelRole(r[1].clone()) }
             }).collect());
         }
         for (hi, hist) in hists.iter().enumerate() {
@@ -88,17 +90,28 @@ pub fn run(rec: &mut Recorder, w: &mut World, tier: &str, seed: u64) {
             new_enforcer(rec, w, &m, "memory", &lines, "", false);
             let (mut g1, mut g2) = (RefLinks::default(), RefLinks::default());
             let mut descr = vec![];
+            let mut stored: [Vec<Vec<String>>; 2] = [vec![], vec![]];
             for op in hist {
                 rec.exec(w, &op.line());
                 descr.push(op.line().replace('\t', " "));
                 // the spec keeps one link set per definition, read back from the stored rules
                 let pol = rec.exec(w, "e.pol");
                 g1 = RefLinks::default(); g2 = RefLinks::default();
+                // ... and a call made under one definition leaves the rules stored under the other as they were
+                let now: [Vec<Vec<String>>; 2] = { let ls = dec_lists(pol.split(' ').nth(1).unwrap_or("-")); [ls.iter().filter(|l| l[1] == "g").cloned().collect(), ls.iter().filter(|l| l[1] == "g2").cloned().collect()] };
+                let target = match op { MOp::Add(_, d, _) | MOp::Rm(_, d, _) | MOp::RmF(_, d, _, _) | MOp::AddM(_, d, _) | MOp::RmM(_, d, _) => d.as_str(), _ => "g" };
+                let other = if target == "g" { 1 } else { 0 };
+                if now[other] != stored[other] {
+                    rec.fail("definitions-interfere-store", format!("[dom={} shared-names={}] {} (a call on {}) changed the rules stored under {}: {:?} -> {:?}", dom, shared, op.line().replace('\t', " "), target, if other == 1 { "g2" } else { "g" }, stored[other], now[other]));
+                }
+                stored = now;
                 for l in dec_lists(pol.split(' ').nth(1).unwrap_or("-")) {
                     let d = if dom { Some(l[4].clone()) } else { None };
                     if l[1] == "g" { g1.add(&l[2], &l[3], &d) } else { g2.add(&l[2], &l[3], &d) }
                 }
             }
+            // the permissions in force (delete_user / delete_role take the deleted name's permission rules along)
+            let p: Vec<Vec<String>> = { let pol = rec.exec(w, "e.pol"); dec_lists(pol.split(' ').next().unwrap_or("-")).iter().filter(|l| l.len() > 2).map(|l| l[2..].to_vec()).collect() };
             // all requests
             let mut reqs: Vec<Vec<String>> = vec![];
             for s in &n1 { for o in &n2 { if dom { for t in doms { reqs.push(sv(&[s, t, o, "read"])); } } else { reqs.push(sv(&[s, o, "read"])); } } }
